@@ -1,4 +1,4 @@
-/* Inner correspondence for C07: builds environment chains, syntactic closures and rename entries with
+/* Inner correspondence for C07 (round 3 additions: form / xenv / ana / strip): builds environment chains, syntactic closures and rename entries with
    the real constructors (sexp_extend_env, sexp_env_push, sexp_env_rename, sexp_make_synclo_op), sets the
    compile context's free-variable list, and answers every lookup with the real sexp_env_cell /
    sexp_identifier_eq_op.  Line protocol = the environment-script part of ocaml/C07_driver.ml; every line
@@ -8,8 +8,79 @@
 #include <string.h>
 #include <stdlib.h>
 
+extern sexp sexp_extend_synclo_env (sexp ctx, sexp env);   /* eval.c:235, not static, not in eval.h */
 #define MAXO 4096
-static sexp ctx, store;   /* store: idents [0,MAXO), envs [MAXO,2MAXO), cells [2MAXO,3MAXO) */
+#define STKN 400000
+static sexp ctx, store, stk;   /* stk: rooted construction stack of the datum builder */
+static int sp;
+static sexp env0;
+
+/* ---- data for sexp_strip_synclos: prefix notation  S<n> symbol | L<n> fixnum | N nil | P a d | V<k> e1..ek | C e */
+static char *nexttok(char **p) {
+  char *s = *p, *t;
+  while (*s == ' ' || *s == '\n') s++;
+  if (!*s) return NULL;
+  t = s;
+  while (*s && *s != ' ' && *s != '\n') s++;
+  if (*s) *s++ = 0;
+  *p = s;
+  return t;
+}
+#define STK(i) sexp_vector_ref(stk, sexp_make_fixnum(i))
+#define PUSH(v) (sexp_vector_set(stk, sexp_make_fixnum(sp), (v)), sp++)
+/* builds one datum, leaves it on top of stk, returns its index; -1 on a malformed line */
+static int build(char **p) {
+  char *t = nexttok(p);
+  int base = sp, ia, id, k, i;
+  sexp r;
+  if (!t || sp >= STKN - 2) return -1;
+  switch (t[0]) {
+  case 'S': { char nm[64]; snprintf(nm, sizeof nm, "s%s", t + 1); r = sexp_intern(ctx, nm, -1); PUSH(r); return base; }
+  case 'L': PUSH(sexp_make_fixnum(atoi(t + 1))); return base;
+  case 'N': PUSH(SEXP_NULL); return base;
+  case 'P':
+    if ((ia = build(p)) < 0 || (id = build(p)) < 0) return -1;
+    r = sexp_cons(ctx, STK(ia), STK(id));
+    sp = base; PUSH(r); return base;
+  case 'V':
+    k = atoi(t + 1);
+    for (i = 0; i < k; i++) if (build(p) < 0) return -1;
+    r = sexp_make_vector(ctx, sexp_make_fixnum(k), SEXP_FALSE);
+    for (i = 0; i < k; i++) sexp_vector_set(r, sexp_make_fixnum(i), STK(base + i));
+    sp = base; PUSH(r); return base;
+  case 'C':
+    if ((ia = build(p)) < 0) return -1;
+    r = sexp_make_synclo_op(ctx, NULL, 3, env0, SEXP_NULL, STK(ia));
+    sp = base; PUSH(r); return base;
+  }
+  return -1;
+}
+static void show(sexp x) {
+  if (sexp_synclop(x)) { printf("C "); show(sexp_synclo_expr(x)); }
+  else if (sexp_pairp(x)) { printf("P "); show(sexp_car(x)); printf(" "); show(sexp_cdr(x)); }
+  else if (sexp_nullp(x)) printf("N");
+  else if (sexp_fixnump(x)) printf("L%ld", (long)sexp_unbox_fixnum(x));
+  else if (sexp_symbolp(x)) { sexp s = sexp_symbol_to_string(ctx, x); printf("S%s", sexp_string_data(s) + 1); }
+  else if (sexp_vectorp(x)) {
+    int i, n = sexp_vector_length(x);
+    printf("V%d", n);
+    for (i = 0; i < n; i++) { printf(" "); show(sexp_vector_ref(x, sexp_make_fixnum(i))); }
+  } else printf("?");
+}
+/* the analysed form: application = list, reference = its cell number ("-": no cell / created undefined) */
+static void show_ast(sexp x) {
+  if (sexp_pairp(x)) {
+    printf("(");
+    for ( ; sexp_pairp(x); x = sexp_cdr(x)) { show_ast(sexp_car(x)); if (sexp_pairp(sexp_cdr(x))) printf(" "); }
+    printf(")");
+  } else if (sexp_refp(x)) {
+    sexp c = sexp_ref_cell(x);
+    if (c && sexp_pairp(c) && sexp_fixnump(sexp_cdr(c))) printf("%ld", (long)sexp_unbox_fixnum(sexp_cdr(c)));
+    else printf("-");
+  } else if (sexp_exceptionp(x)) printf("ERR");
+  else printf("?");
+}
+   /* store: idents [0,MAXO), envs [MAXO,2MAXO), cells [2MAXO,3MAXO) */
 
 static sexp get(int base, int i) { return sexp_vector_ref(store, sexp_make_fixnum(base * MAXO + i)); }
 static void put(int base, int i, sexp v) { sexp_vector_set(store, sexp_make_fixnum(base * MAXO + i), v); }
@@ -25,14 +96,29 @@ int main(int argc, char **argv) {
   sexp_gc_preserve3(ctx, a, b, tmp);
   store = sexp_make_vector(ctx, sexp_make_fixnum(3 * MAXO), SEXP_FALSE);
   sexp_preserve_object(ctx, store);
+  stk = sexp_make_vector(ctx, sexp_make_fixnum(STKN), SEXP_FALSE);
+  sexp_preserve_object(ctx, stk);
+  env0 = sexp_context_env(ctx);
   while (fgets(line, sizeof line, stdin)) {
+    if (!strncmp(line, "strip ", 6)) {
+      /* strip <datum>: the real sexp_strip_synclos (predicate + copy) on a datum built with real pairs,
+         vectors and syntactic closures */
+      char *p = line + 6; int i;
+      sp = 0;
+      i = build(&p);
+      if (i < 0) printf("ERR malformed");
+      else { a = sexp_strip_synclos(ctx, NULL, 1, STK(i)); show(a); }
+      printf("\n");
+      for (i = 0; i < sp; i++) sexp_vector_set(stk, sexp_make_fixnum(i), SEXP_FALSE);
+      continue;
+    }
     char *f[600]; int nf = 0; char *tok = strtok(line, " \n");
     while (tok && nf < 600) { f[nf++] = tok; tok = strtok(NULL, " \n"); }
     if (nf == 0) { printf("\n"); continue; }
     if (!strcmp(f[0], "config")) {
-      printf("rename_bindings=%d strict_toplevel=%d flat_synclos=%d unwrapped_toplevel=%d",
+      printf("rename_bindings=%d strict_toplevel=%d flat_synclos=%d unwrapped_toplevel=%d strip_bound=%d",
              SEXP_USE_RENAME_BINDINGS, SEXP_USE_STRICT_TOPLEVEL_BINDINGS,
-             SEXP_USE_FLAT_SYNTACTIC_CLOSURES, SEXP_USE_UNWRAPPED_TOPLEVEL_BINDINGS);
+             SEXP_USE_FLAT_SYNTACTIC_CLOSURES, SEXP_USE_UNWRAPPED_TOPLEVEL_BINDINGS, SEXP_STRIP_SYNCLOS_BOUND);
     } else if (!strcmp(f[0], "reset")) {
       for (int i = 0; i < 3 * MAXO; i++) sexp_vector_set(store, sexp_make_fixnum(i), SEXP_FALSE);
       sexp_context_fv(ctx) = SEXP_NULL;
@@ -68,6 +154,31 @@ int main(int argc, char **argv) {
       b = sexp_make_synclo_op(ctx, NULL, 3, ENV(k), a, IDENT(atoi(f[4 + n])));
       put(0, j, b);
       printf("ok");
+    } else if (!strcmp(f[0], "form") && nf >= 3) {
+      /* form J n x1 .. xn : identifier slot J := the list (x1 .. xn) of other slots (a combination) */
+      int j = atoi(f[1]), n = atoi(f[2]);
+      a = SEXP_NULL;
+      for (int i = n - 1; i >= 0; i--) a = sexp_cons(ctx, IDENT(atoi(f[3 + i])), a);
+      put(0, j, a);
+      printf("ok");
+    } else if (!strcmp(f[0], "xenv") && nf == 4) {
+      /* xenv K2 K CE : env K2 := sexp_extend_synclo_env(ctx with context env CE and the current fv list, env K) */
+      tmp = sexp_context_env(ctx);
+      sexp_context_env(ctx) = ENV(atoi(f[3]));
+      a = sexp_extend_synclo_env(ctx, ENV(atoi(f[2])));
+      sexp_context_env(ctx) = tmp;
+      put(1, atoi(f[1]), a);
+      printf("ok");
+    } else if (!strcmp(f[0], "ana") && nf == 3) {
+      /* ana CE J : the real analyze of form J in a context whose environment is CE (current fv list);
+         syntactic closures around combinations go through eval.c:1216-1224 + sexp_extend_synclo_env */
+      tmp = sexp_context_env(ctx);
+      b = sexp_context_fv(ctx);
+      sexp_context_env(ctx) = ENV(atoi(f[1]));
+      a = sexp_analyze(ctx, IDENT(atoi(f[2])));
+      sexp_context_env(ctx) = tmp;
+      sexp_context_fv(ctx) = b;
+      show_ast(a);
     } else if (!strcmp(f[0], "fv") && nf >= 2) {
       int n = atoi(f[1]);
       a = SEXP_NULL;
